@@ -62,7 +62,7 @@ Proof.
   - destruct (task s) as [[]|]; try exact H. destruct (r s =? 1); exact H.
   - destruct (task s) as [[]|]; try exact H. destruct (avail s) eqn:Ea; cbn [delivered avail sent].
     + rewrite app_nil_r in *. exact H.
-    + rewrite <- Ea, <- app_assoc, firstn_skipn. exact H.
+    + rewrite <- app_assoc, firstn_skipn. exact H.
 Qed.
 
 Ltac boolprop :=
@@ -85,9 +85,12 @@ Ltac fin :=
   | H : _ /\ _ |- _ => destruct H
   | H : ?x = ?x -> _ |- _ => specialize (H eq_refl)
   | H : Some _ <> None -> _ |- _ => specialize (H ltac:(discriminate))
+  | H : ?P -> _, H' : ?P |- _ => specialize (H H')
   end;
   try discriminate; try contradiction; try congruence; try lia; auto;
-  try (repeat split; try discriminate; try congruence; try lia; auto).
+  try (repeat split; try discriminate; try congruence; try lia; auto);
+  try (unfold will_read, will_check; cbn [r task spawning avail edge eofsent eofflag closed sent delivered ntasks set_task];
+       repeat rewrite orb_true_r; reflexivity).
 
 Ltac fields := cbn [r task spawning avail edge eofsent eofflag closed sent delivered ntasks set_task].
 
@@ -99,19 +102,13 @@ Qed.
 Lemma ctl_arrive s x d : Ctl s -> Ctl (step s (Arrive x d)).
 Proof.
   intros HC. cbn [step]. destruct (eofsent s) eqn:Ee; [exact HC|].
-  destruct HC. constructor; fields; auto.
-  - (* data: the arrival raises the edge *) intros _ _. reflexivity.
-  - intros _ _. reflexivity.
-  - intros Hc. specialize (c_closed0 Hc). fin.
+  destruct HC. constructor; fields; try solve [fin].
 Qed.
 
 Lemma ctl_peereof s : Ctl s -> Ctl (step s PeerEOF).
 Proof.
   intros HC. cbn [step]. destruct (eofsent s) eqn:Ee; [exact HC|].
-  destruct HC. constructor; fields; auto.
-  - intros _ _. reflexivity.
-  - intros _ _. reflexivity.
-  - intros Hc. specialize (c_closed0 Hc). fin.
+  destruct HC. constructor; fields; try solve [fin].
 Qed.
 
 Lemma ctl_gate s : Ctl s -> Ctl (step s PollGate).
@@ -123,27 +120,27 @@ Proof.
     assert (Hr2 : r s = 2) by (pose proof (c_range s HC); lia).
     destruct (closed s) eqn:Ec.
     + destruct (c_closed s HC Ec) as (Hr & Hta & _ & Hav & Hes).
-      destruct HC. constructor; fields; rewrite ?Ec, ?Hta; fin.
+      destruct HC. constructor; fields; rewrite ?Ec, ?Hta in *; fin.
     + assert (Hta : task s <> None).
       { intros Hnone. pose proof (c_idle s HC Ec Hnone Esf). lia. }
-      destruct HC. constructor; fields; rewrite ?Ec; try solve [fin].
+      destruct HC. constructor; fields; rewrite ?Ec in *; try solve [fin].
       * intros _ _. unfold will_read; fields. rewrite Hr2. destruct (task s) as [[]|]; try reflexivity; try contradiction. cbn. apply orb_true_r.
       * intros _ _. unfold will_check; fields. rewrite Hr2. destruct (task s) as [[]|]; try reflexivity; contradiction.
   - destruct (closed s) eqn:Ec.
     + (* closed: the counter only moves from 1 to 2 *)
       destruct (c_closed s HC Ec) as (Hr & Hta & _ & Hav & Hes).
       assert (Hr1 : r s = 1) by lia. rewrite Hr1; cbn [Nat.eqb].
-      destruct HC. constructor; fields; rewrite ?Ec, ?Hta; fin.
+      destruct HC. constructor; fields; rewrite ?Ec, ?Hta in *; fin.
     + destruct (r s) as [|[|n]] eqn:Er; [| |lia]; cbn [Nat.eqb].
       * (* 0 -> 1: the poller will spawn *)
         assert (Hta : task s = None).
         { destruct (task s) eqn:Et; [|reflexivity]. assert (Hx : task s <> None) by (rewrite Et; discriminate).
           destruct (c_task s HC Hx). lia. }
-        destruct HC. constructor; fields; rewrite ?Ec, ?Hta; try solve [fin].
+        destruct HC. constructor; fields; rewrite ?Ec, ?Hta in *; try solve [fin].
       * (* 1 -> 2: a task is alive, it will make another pass *)
         assert (Hta : task s <> None).
         { intros Hnone. pose proof (c_idle s HC Ec Hnone Esf). lia. }
-        destruct HC. constructor; fields; rewrite ?Ec; try solve [fin].
+        destruct HC. constructor; fields; rewrite ?Ec in *; try solve [fin].
         -- intros _ _. unfold will_read; fields. destruct (task s) as [[]|]; try reflexivity; try contradiction. cbn. apply orb_true_r.
         -- intros _ _. unfold will_check; fields. destruct (task s) as [[]|]; try reflexivity; contradiction.
 Qed.
@@ -152,10 +149,7 @@ Lemma ctl_spawn s : Ctl s -> Ctl (step s PollSpawn).
 Proof.
   intros HC. cbn [step]. destruct (spawning s) eqn:E; [|exact HC].
   destruct (c_spawn s HC E) as (Hta & Hr & Hc).
-  destruct HC. constructor; fields; rewrite ?Hc; try solve [fin].
-  - rewrite Hta in c_ntasks0. lia.
-  - intros _ _. unfold will_read; fields. apply orb_true_r.
-  - intros _ _. unfold will_check; fields. apply orb_true_r.
+  destruct HC. constructor; fields; rewrite ?Hc, ?Hta in *; try solve [fin].
 Qed.
 
 Lemma ctl_markeof s : Ctl s -> Ctl (step s PollMarkEOF).
@@ -163,8 +157,7 @@ Proof.
   intros HC. cbn [step]. destruct (eofsent s && negb (eofflag s) && negb (spawning s)) eqn:E; [|exact HC].
   apply andb_true_iff in E as [E Esf]. apply andb_true_iff in E as [Ees Eef].
   apply negb_true_iff in Esf. apply negb_true_iff in Eef.
-  destruct HC. constructor; fields; auto.
-  - intros Hd. specialize (c_drain0 Hd). congruence.
+  destruct HC. constructor; fields; try solve [fin].
 Qed.
 
 Lemma ctl_read s buf : Ctl s -> Ctl (step s (TaskRead buf)).
@@ -175,9 +168,6 @@ Proof.
   destruct (length (firstn (S buf) (avail s)) <? S buf) eqn:El; boolprop;
     destruct HC; constructor; fields; rewrite ?Hc, ?Hsf, ?Et in *; try solve [fin].
   - intros _ Hav. exfalso. apply Hav. apply short_read_drains. exact El.
-  - intros _ _. unfold will_check; fields. apply orb_true_r.
-  - intros _ _. unfold will_read; fields. apply orb_true_r.
-  - intros _ _. unfold will_check; fields. apply orb_true_r.
 Qed.
 
 Lemma ctl_check s : Ctl s -> Ctl (step s TaskCheck).
@@ -186,9 +176,7 @@ Proof.
   assert (Hx : task s <> None) by (rewrite Et; discriminate).
   destruct (c_task s HC Hx) as [Hr Hc]. pose proof (spawning_no_task s HC Hx) as Hsf.
   destruct (eofflag s) eqn:Ef; destruct HC; constructor; fields; rewrite ?Hc, ?Hsf, ?Et, ?Ef in *; try solve [fin].
-  - intros _ _. unfold will_read; fields. apply orb_true_r.
-  - intros _ _. unfold will_check; fields. apply orb_true_r.
-  - intros _ Hav. specialize (c_data0 eq_refl Hav). unfold will_read in *; fields. rewrite Et, Ef, Hsf in c_data0. exact c_data0.
+  - intros _ Hav. specialize (c_data0 eq_refl Hav). unfold will_read in *; fields. rewrite ?Et, ?Ef, ?Hsf in c_data0. rewrite ?Hsf. cbn in c_data0. exact c_data0.
 Qed.
 
 Lemma ctl_dec s : Ctl s -> Ctl (step s TaskDec).
@@ -198,12 +186,10 @@ Proof.
   destruct (c_task s HC Hx) as [Hr Hc]. pose proof (spawning_no_task s HC Hx) as Hsf. pose proof (c_range s HC) as Hr2.
   destruct (r s =? 1) eqn:E1; boolprop; destruct HC; constructor; fields; rewrite ?Hc, ?Hsf, ?Et in *; try solve [fin].
   - (* the task ends: unread data must have an edge *)
-    intros _ Hav. specialize (c_data0 eq_refl Hav). unfold will_read in *; fields. rewrite Et, Hsf, E1 in c_data0. rewrite Hsf.
-    cbn in c_data0. rewrite !orb_false_r in *. rewrite c_data0. reflexivity.
-  - intros _ Hf. specialize (c_eof0 eq_refl Hf). unfold will_check in *; fields. rewrite Et, Hsf, E1 in c_eof0. rewrite Hsf.
-    cbn in c_eof0. rewrite !orb_false_r in *. rewrite c_eof0. reflexivity.
-  - intros _ _. unfold will_read; fields. apply orb_true_r.
-  - intros _ _. unfold will_check; fields. apply orb_true_r.
+    intros _ Hav. specialize (c_data0 eq_refl Hav). destruct (edge s) eqn:Ee; [fin|].
+    exfalso. unfold will_read in c_data0. rewrite Ee, Hsf, Et, E1 in c_data0. discriminate.
+  - intros _ Hf. specialize (c_eof0 eq_refl Hf). destruct (edge s) eqn:Ee; [fin|].
+    exfalso. unfold will_check in c_eof0. rewrite Ee, Hsf, Et, E1 in c_eof0. discriminate.
 Qed.
 
 Lemma ctl_drain s buf : Ctl s -> Ctl (step s (TaskDrain buf)).
@@ -213,8 +199,6 @@ Proof.
   destruct (c_task s HC Hx) as [Hr Hc]. pose proof (spawning_no_task s HC Hx) as Hsf.
   pose proof (c_drain s HC Et) as Hf. pose proof (c_flag s HC Hf) as Hes.
   destruct (avail s) eqn:Ea; destruct HC; constructor; fields; rewrite ?Hc, ?Hsf, ?Et in *; try solve [fin].
-  - intros _ _. unfold will_read; fields. apply orb_true_r.
-  - intros _ _. unfold will_check; fields. apply orb_true_r.
 Qed.
 
 Lemma step_ctl s a : Ctl s -> Ctl (step s a).
@@ -227,7 +211,7 @@ Lemma init_acc : Acc (@init A). Proof. reflexivity. Qed.
 Lemma init_ctl : Ctl (@init A).
 Proof. constructor; cbn; fin. Qed.
 
-Lemma run_inv l : Acc (run l) /\ Ctl (run l).
+Lemma run_inv (l : list action) : Acc (run l) /\ Ctl (run l).
 Proof.
   unfold run. generalize init_acc init_ctl. generalize (@init A).
   induction l as [|a l IH]; intros s Ha Hc; cbn; [split; assumption|].
@@ -235,13 +219,13 @@ Proof.
 Qed.
 
 (* ---- consequences ---- *)
-Lemma one_reader l : ntasks (run l) <= 1.
+Lemma one_reader (l : list action) : ntasks (run l) <= 1.
 Proof. destruct (run_inv l) as [_ HC]. rewrite (c_ntasks _ HC). destruct (task _); lia. Qed.
 
-Lemma prefix l : exists rest, sent (run l) = delivered (run l) ++ rest.
+Lemma prefix (l : list action) : exists rest, sent (run l) = delivered (run l) ++ rest.
 Proof. destruct (run_inv l) as [Ha _]. exists (avail (run l)). symmetry. exact Ha. Qed.
 
-Lemma no_lost_edge l :
+Lemma no_lost_edge (l : list action) :
   closed (run l) = false -> avail (run l) <> [] -> edge (run l) = true \/ spawning (run l) = true \/ task (run l) <> None.
 Proof.
   destruct (run_inv l) as [_ HC]. intros Hc H. pose proof (c_data _ HC Hc H) as W. unfold will_read in W.
@@ -249,7 +233,7 @@ Proof.
   right; right. destruct (task (run l)); [discriminate|discriminate].
 Qed.
 
-Lemma complete l : quiescent (run l) -> delivered (run l) = sent (run l).
+Lemma complete (l : list action) : quiescent (run l) -> delivered (run l) = sent (run l).
 Proof.
   intros (Q1 & Q2 & Q3 & Q4). destruct (run_inv l) as [Ha HC]. unfold Acc in Ha.
   assert (Hav : avail (run l) = []).
@@ -262,7 +246,7 @@ Proof.
 Qed.
 
 (* the end of the stream is not forgotten: once nobody can act any more, the connection has been closed *)
-Lemma eof_closes l : quiescent (run l) -> eofsent (run l) = true -> closed (run l) = true.
+Lemma eof_closes (l : list action) : quiescent (run l) -> eofsent (run l) = true -> closed (run l) = true.
 Proof.
   intros (Q1 & Q2 & Q3 & Q4) He. destruct (run_inv l) as [_ HC].
   destruct (closed (run l)) eqn:Ec; [reflexivity|].
@@ -270,17 +254,17 @@ Proof.
 Qed.
 
 (* and it is closed only after everything the peer sent has been delivered *)
-Lemma closed_complete l : closed (run l) = true -> delivered (run l) = sent (run l) /\ eofsent (run l) = true.
+Lemma closed_complete (l : list action) : closed (run l) = true -> delivered (run l) = sent (run l) /\ eofsent (run l) = true.
 Proof.
   intros Hc. destruct (run_inv l) as [Ha HC]. destruct (c_closed _ HC Hc) as (_&_&_&Hav&He).
   unfold Acc in Ha. rewrite Hav, app_nil_r in Ha. split; assumption.
 Qed.
 
-Lemma counter_range l : r (run l) <= 2.
+Lemma counter_range (l : list action) : r (run l) <= 2.
 Proof. destruct (run_inv l) as [_ HC]. exact (c_range _ HC). Qed.
 
 (* while the connection is open the counter is positive exactly while a task is alive or about to be started *)
-Lemma counter_tracks_task l : closed (run l) = false ->
+Lemma counter_tracks_task (l : list action) : closed (run l) = false ->
   (r (run l) = 0 <-> task (run l) = None /\ spawning (run l) = false).
 Proof.
   destruct (run_inv l) as [_ HC]. intros Hc. split.
@@ -312,18 +296,18 @@ Proof.
   - rewrite He. apply andb_true_iff in He as [E Esf]. apply andb_true_iff in E as [Ees Eef].
     apply negb_true_iff in Eef. unfold measure; fields. rewrite Eef.
     destruct (edge s), (spawning s), (task s) as [[]|]; lia.
-  - destruct (task s) as [[]|] eqn:Et; try discriminate. unfold measure; fields.
+  - destruct (task s) as [[]|] eqn:Et; try discriminate. unfold measure; fields; rewrite ?Et.
     rewrite skipn_length.
     destruct (length (firstn (S buf) (avail s)) <? S buf) eqn:El; boolprop.
     + destruct (edge s), (spawning s), (eofflag s); lia.
     + rewrite firstn_length in El. destruct (edge s), (spawning s), (eofflag s); lia.
-  - destruct (task s) as [[]|] eqn:Et; try discriminate. unfold measure; fields.
+  - destruct (task s) as [[]|] eqn:Et; try discriminate. unfold measure; fields; rewrite ?Et.
     destruct (edge s), (spawning s), (eofflag s); lia.
   - destruct (task s) as [[]|] eqn:Et; try discriminate.
     assert (Hx : task s <> None) by (rewrite Et; discriminate). destruct (c_task s HC Hx) as [Hr _].
-    destruct (r s =? 1) eqn:E1; boolprop; unfold measure; fields; destruct (edge s), (spawning s), (eofflag s); lia.
+    destruct (r s =? 1) eqn:E1; boolprop; unfold measure; fields; rewrite ?Et; destruct (edge s), (spawning s), (eofflag s); lia.
   - destruct (task s) as [[]|] eqn:Et; try discriminate.
-    destruct (avail s) eqn:Ea; unfold measure; fields.
+    destruct (avail s) eqn:Ea; unfold measure; fields; rewrite ?Et, ?Ea.
     + destruct (edge s), (spawning s), (eofflag s); cbn [length]; lia.
     + rewrite skipn_length. cbn [length]. destruct (edge s), (spawning s), (eofflag s); lia.
 Qed.
@@ -334,7 +318,7 @@ Fixpoint steps_taken (s : st) (l : list action) : nat :=
   | a :: l' => (if enabled s a then 1 else 0) + steps_taken (step s a) l'
   end.
 
-Lemma disabled_noop s a : enabled s a = false -> step s a = s.
+Lemma disabled_noop (s : st) (a : action) : enabled s a = false -> step s a = s.
 Proof.
   destruct a as [x d| | | | |buf| | |buf]; cbn [enabled step]; intros H.
   - apply negb_false_iff in H. rewrite H. reflexivity.
